@@ -48,7 +48,9 @@ func (e c14StrErr) Error() string { return "boom-strerr:" + string(e) }
 var c14Shapes = []string{"string", "[]byte", "error", "(int,string)/fast", "(int,string)/reflect", "(int,[]byte)", "(int,error)", "(string,error)", "([]byte,error)", "*string", "*[]byte",
 	// named string and byte-slice types that carry a String() method (and, the string one, a Format method): the
 	// value is the body, not what its methods would print
-	"Stringer-string", "(int,Stringer-string)", "(Stringer-string,error)", "Stringer-[]byte"}
+	"Stringer-string", "(int,Stringer-string)", "(Stringer-string,error)", "Stringer-[]byte",
+	// the same shapes returned by handlers that take the request context (other invokers than for func() ...)
+	"error/ctx", "(int,error)/ctx", "(string,error)/ctx", "string/ctx", "[]byte/ctx"}
 
 type c14Token string
 
@@ -153,6 +155,16 @@ func (w *c14World) handler(shape string) flamego.Handler {
 		return func() (int, error) { return w.v.Code, w.err() }
 	case "(string,error)":
 		return func() (string, error) { return w.v.S, w.err() }
+	case "error/ctx":
+		return func(c flamego.Context) error { return w.err() }
+	case "(int,error)/ctx":
+		return func(c flamego.Context) (int, error) { return w.v.Code, w.err() }
+	case "(string,error)/ctx":
+		return func(c flamego.Context) (string, error) { return w.v.S, w.err() }
+	case "string/ctx":
+		return func(c flamego.Context) string { return w.v.S }
+	case "[]byte/ctx":
+		return func(c flamego.Context) []byte { return w.bytes() }
 	case "Stringer-string":
 		return func() c14Token { return c14Token(w.v.S) }
 	case "(int,Stringer-string)":
@@ -249,6 +261,7 @@ type c14Expect struct {
 
 // c14Table is the table of the statement.
 func c14Table(shape string, v c14Vals, errv error, b []byte) c14Expect {
+	shape = strings.TrimSuffix(shape, "/ctx")
 	body := func(s string) c14Expect {
 		if s == "" {
 			return c14Expect{Defined: true}
